@@ -18,6 +18,7 @@ import (
 	"testing"
 	"time"
 
+	"tunnox-core/internal/packet"
 	"tunnox-core/internal/stream"
 	vk "tunnox-core/internal/verifkit"
 )
@@ -223,6 +224,89 @@ func (c *c02Conn) Close() error {
 	return c.Conn.Close()
 }
 
+// ---- layered stream over a real TCP connection ----
+//
+// An end may arrive over a real *net.TCPConn whose stream applies a reversible
+// transformation (what StreamFactory encryption/compression does): the bytes the end
+// "writes" and "receives" are the ones that went through its stream's writer/reader, so
+// the bridge must splice the stream's reader/writer, never the raw socket. The
+// transformation here is a position-dependent XOR keystream, applied symmetrically by
+// the harness client. (The repository's own encrypting writer buffers up to its chunk size
+// and flushes only on Close, so a live duplex tunnel over it stalls by construction; it is
+// not used.)
+func c02Key(key uint64, off int64) byte {
+	x := (uint64(off)+1)*0x9E3779B97F4A7C15 ^ key
+	x ^= x >> 31
+	return byte(x*0xBF58476D1CE4E5B9>>56) | 1
+}
+
+type c02MaskReader struct {
+	r   io.Reader
+	key uint64
+	off int64
+}
+
+func (m *c02MaskReader) Read(p []byte) (int, error) {
+	n, err := m.r.Read(p)
+	for i := 0; i < n; i++ {
+		p[i] ^= c02Key(m.key, m.off+int64(i))
+	}
+	m.off += int64(n)
+	return n, err
+}
+
+type c02MaskWriter struct {
+	w   io.Writer
+	key uint64
+	off int64
+}
+
+func (m *c02MaskWriter) Write(p []byte) (int, error) {
+	q := make([]byte, len(p))
+	for i := range p {
+		q[i] = p[i] ^ c02Key(m.key, m.off+int64(i))
+	}
+	n, err := m.w.Write(q)
+	m.off += int64(n)
+	return n, err
+}
+
+// c02MaskStream is the server-side stream of such an end (reader/writer layered over the
+// counting/fault-injecting wrapper of the socket).
+type c02MaskStream struct {
+	r io.Reader
+	w io.Writer
+	c io.Closer
+}
+
+func c02NewMaskStream(under *c02Conn, key uint64) *c02MaskStream {
+	// server reads what the client wrote with key, writes what the client reads with ^key
+	return &c02MaskStream{r: &c02MaskReader{r: under, key: key}, w: &c02MaskWriter{w: under, key: ^key}, c: under}
+}
+
+func (s *c02MaskStream) GetReader() io.Reader { return s.r }
+func (s *c02MaskStream) GetWriter() io.Writer { return s.w }
+func (s *c02MaskStream) Close()               { s.c.Close() }
+func (s *c02MaskStream) ReadPacket() (*packet.TransferPacket, int, error) {
+	return nil, 0, io.EOF
+}
+func (s *c02MaskStream) WritePacket(*packet.TransferPacket, bool, int64) (int, error) { return 0, nil }
+func (s *c02MaskStream) ReadExact(int) ([]byte, error)                                { return nil, io.EOF }
+func (s *c02MaskStream) WriteExact([]byte) error                                      { return nil }
+
+// c02MaskConn is the harness client's view of that end.
+type c02MaskConn struct {
+	net.Conn
+	rd *c02MaskReader
+	wr *c02MaskWriter
+}
+
+func c02NewMaskConn(c net.Conn, key uint64) *c02MaskConn {
+	return &c02MaskConn{Conn: c, rd: &c02MaskReader{r: c, key: ^key}, wr: &c02MaskWriter{w: c, key: key}}
+}
+func (m *c02MaskConn) Read(p []byte) (int, error)  { return m.rd.Read(p) }
+func (m *c02MaskConn) Write(p []byte) (int, error) { return m.wr.Write(p) }
+
 // tunnel-connection double: same Close behaviour as session.TCPTunnelConnection
 // (closes the stream, then the connection).
 type c02TunnelConn struct {
@@ -327,6 +411,8 @@ type c02Cfg struct {
 	Closer    string `json:"orderly_closer"`
 	DataErr   bool   `json:"errors_delivered_with_data"`
 	ErrClass  string `json:"read_error_class,omitempty"`
+	MaskS     bool   `json:"src_layered_stream_over_tcp,omitempty"`
+	MaskT     bool   `json:"tgt_layered_stream_over_tcp,omitempty"`
 	SrcT2     string `json:"src2_transport,omitempty"`
 	Yield     bool   `json:"yield"`
 	Seed      uint64 `json:"pattern_seed"`
@@ -475,6 +561,8 @@ func c02Gen(r *rand.Rand, id int, thorough bool) c02Cfg {
 	c.Yield = r.Intn(4) == 0
 	c.DataErr = r.Intn(2) == 0
 	c.ErrClass = c02ErrClasses[r.Intn(len(c02ErrClasses))]
+	c.MaskS = c.SrcT == "tcp" && r.Intn(2) == 0
+	c.MaskT = c.TgtT == "tcp" && r.Intn(2) == 0
 	c.SrcT2 = tr()
 	switch k := r.Intn(100); {
 	case k < 36:
@@ -878,6 +966,14 @@ func c02RunCase(run *vk.Run, nw *c02Net, cfg c02Cfg) (out c02Outcome) {
 	}
 	srvS, srvT := c02Wrap(srvSraw), c02Wrap(srvTraw)
 	srvS.maxRead, srvT.maxRead = cfg.MaxReadS, cfg.MaxReadT
+	maskS := cfg.MaskS && cfg.SrcT == "tcp"
+	maskT := cfg.MaskT && cfg.TgtT == "tcp"
+	if maskS {
+		cliS = c02NewMaskConn(cliS, cfg.Seed|1)
+	}
+	if maskT {
+		cliT = c02NewMaskConn(cliT, cfg.Seed<<1|1)
+	}
 
 	s2t := vk.Pattern(cfg.Seed, 0, cfg.S2T)
 	t2s := vk.Pattern(cfg.Seed^0xA5A5A5A5DEADBEEF, 0, cfg.T2S)
@@ -899,17 +995,31 @@ func c02RunCase(run *vk.Run, nw *c02Net, cfg c02Cfg) (out c02Outcome) {
 	}
 
 	var srcStream, tgtStream stream.PackageStreamer
-	if cfg.Stream {
+	if cfg.Stream && !maskS {
 		srcStream = stream.NewStreamProcessor(srvS, srvS, ctx)
+	}
+	if cfg.Stream && !maskT {
 		tgtStream = stream.NewStreamProcessor(srvT, srvT, ctx)
+	}
+	// what the bridge is given as the end's net.Conn: the counting wrapper, or - for an end
+	// with a layered stream - the raw *net.TCPConn (as in production), while the stream's
+	// reader/writer sit on top of the wrapper
+	var srcNet, tgtNet net.Conn = srvS, srvT
+	if maskS {
+		srcNet = srvSraw
+		srcStream = c02NewMaskStream(srvS, cfg.Seed|1)
+	}
+	if maskT {
+		tgtNet = srvTraw
+		tgtStream = c02NewMaskStream(srvT, cfg.Seed<<1|1)
 	}
 	bridge := NewBridge(ctx, &BridgeConfig{
 		TunnelID:       fmt.Sprintf("c02-%d", cfg.ID),
-		SourceConn:     srvS,
+		SourceConn:     srcNet,
 		SourceStream:   srcStream,
 		BandwidthLimit: cfg.Limit,
 	})
-	tgtConn := &c02TunnelConn{id: fmt.Sprintf("c02-%d-tgt", cfg.ID), conn: srvT, st: tgtStream}
+	tgtConn := &c02TunnelConn{id: fmt.Sprintf("c02-%d-tgt", cfg.ID), conn: tgtNet, st: tgtStream}
 
 	// event script
 	caseOver := make(chan struct{})
@@ -1233,6 +1343,8 @@ phaseA:
 	srvT.Close()
 	if srcStream != nil {
 		srcStream.Close()
+	}
+	if tgtStream != nil {
 		tgtStream.Close()
 	}
 	cw := time.NewTimer(c02WatchClose)
@@ -1256,6 +1368,15 @@ phaseA:
 	}
 	run.Count("cases_limit_"+lc, 1)
 	run.Count("cases_script_"+cfg.Script, 1)
+	if (maskS || maskT) && S.got.Load()+T.got.Load() > 0 {
+		run.Count("layered_tcp_stream_cases", 1)
+		if maskS != maskT {
+			run.Count("layered_tcp_stream_one_end_only", 1)
+		}
+		if out.complete {
+			run.Count("layered_tcp_stream_complete", 1)
+		}
+	}
 	if induced.Load() || faultFired() {
 		run.Count("teardown_induced", 1)
 	}
@@ -1302,7 +1423,7 @@ phaseA:
 	}
 	run.Count("bytes_delivered", S.got.Load()+T.got.Load())
 	if S.got.Load()+T.got.Load() > 0 {
-		run.Distinct(fmt.Sprintf("%s>%s|stream=%v|limit=%s|attach=%s|script=%s|%s/%s", cfg.SrcT, cfg.TgtT, cfg.Stream, lc, cfg.Attach, cfg.Script,
+		run.Distinct(fmt.Sprintf("%s>%s|stream=%v|layered=%v/%v|limit=%s|attach=%s|script=%s|%s/%s", cfg.SrcT, cfg.TgtT, cfg.Stream, maskS, maskT, lc, cfg.Attach, cfg.Script,
 			c02SizeBucket(cfg.S2T), c02SizeBucket(cfg.T2S)))
 	}
 	return out
@@ -1637,6 +1758,11 @@ func c02Directed() []c02Cfg {
 	add(func(c *c02Cfg) { c.Limit = 64 * 1024; c.S2T = 100000; c.T2S = 100000; c.ChunkS = "mid"; c.ChunkT = "big" })
 	add(func(c *c02Cfg) { c.Limit = 1 << 20; c.S2T = 1<<20 + 1; c.T2S = 1500000; c.ChunkS = "big"; c.ChunkT = "big"; c.SrcT = "buf"; c.TgtT = "tcp" })
 	add(func(c *c02Cfg) { c.Limit = 1 << 30; c.S2T = 1500000; c.T2S = 1<<20 + 1; c.ChunkS = "big"; c.ChunkT = "whole"; c.SrcT = "buf"; c.TgtT = "buf" })
+	// an end over real TCP whose stream layers a transformation over the socket, other end plain
+	add(func(c *c02Cfg) { c.SrcT = "tcp"; c.MaskS = true; c.S2T = 100000; c.T2S = 70000; c.ChunkS = "mid"; c.ChunkT = "small" })
+	add(func(c *c02Cfg) { c.TgtT = "tcp"; c.MaskT = true; c.SrcT = "buf"; c.S2T = 40000; c.T2S = 1<<20 + 1; c.ChunkS = "small"; c.ChunkT = "big" })
+	add(func(c *c02Cfg) { c.SrcT = "tcp"; c.TgtT = "tcp"; c.MaskS = true; c.MaskT = true; c.S2T = 32769; c.T2S = 32769; c.Limit = 64 * 1024 })
+	add(func(c *c02Cfg) { c.SrcT = "tcp"; c.MaskS = true; c.TgtT = "tcp"; c.S2T = 5000; c.T2S = 5000; c.Script = "fin"; c.End = "src" })
 	// an end fails for good with each net.Error class, on either end
 	for i, cls := range c02ErrClasses {
 		cls, i := cls, i
@@ -1674,7 +1800,7 @@ func TestVerifC02BytePipe(t *testing.T) {
 	vk.Quiet()
 	run := vk.Start(t, "C02", "bytepipe")
 	defer run.Finish()
-	run.Rule("a real tunnel.Bridge between two harness clients; per case: transports per end {net.Pipe, unbounded in-memory pipe, loopback TCP}, raw conn or real StreamProcessor, bandwidth limit {0, 500..16383 (burst < 32KiB copy buffer), 64KiB/s, 1MiB/s, 1GiB/s}, 0..1.5MiB (thorough 8MiB) per direction simultaneously (sizes of limited cases chosen so a correct transfer needs <= 1.5s, plus a few slow-but-legal cases: 500..4000 B/s with one write of 6-10x the limit, 4-8 s), seeded write chunkings (1B..256KiB / whole), server-side short reads, client read buffers 1B..64KiB, target attached before/after Start/after the source started writing, scripts {none, injected read timeouts (bare or together with data), an end finishing after a complete exchange with its last bytes delivered together with io.EOF, source re-attach on a new connection at a seeded hand-over offset with the old connection left open (then optionally bytes from the new source end, then the target or the new source end closes while the old connection is still open), client close at a seeded offset, server-side read/write failure at a seeded offset (bare or with data; the sticky read error is plain, Timeout&&!Temporary, Temporary&&!Timeout or a net.Error that is neither), Bridge.Close at a seeded offset}; distinct = (transports, stream, limit class, attach, script, size buckets) of cases that delivered at least one byte")
+	run.Rule("a real tunnel.Bridge between two harness clients; per case: transports per end {net.Pipe, unbounded in-memory pipe, loopback TCP}, raw conn or real StreamProcessor, or (TCP ends) the raw *net.TCPConn plus a stream whose reader/writer apply a position-dependent XOR keystream over the socket, bandwidth limit {0, 500..16383 (burst < 32KiB copy buffer), 64KiB/s, 1MiB/s, 1GiB/s}, 0..1.5MiB (thorough 8MiB) per direction simultaneously (sizes of limited cases chosen so a correct transfer needs <= 1.5s, plus a few slow-but-legal cases: 500..4000 B/s with one write of 6-10x the limit, 4-8 s), seeded write chunkings (1B..256KiB / whole), server-side short reads, client read buffers 1B..64KiB, target attached before/after Start/after the source started writing, scripts {none, injected read timeouts (bare or together with data), an end finishing after a complete exchange with its last bytes delivered together with io.EOF, source re-attach on a new connection at a seeded hand-over offset with the old connection left open (then optionally bytes from the new source end, then the target or the new source end closes while the old connection is still open), client close at a seeded offset, server-side read/write failure at a seeded offset (bare or with data; the sticky read error is plain, Timeout&&!Temporary, Temporary&&!Timeout or a net.Error that is neither), Bridge.Close at a seeded offset}; distinct = (transports, stream, limit class, attach, script, size buckets) of cases that delivered at least one byte")
 
 	ln, err := net.Listen("tcp", "127.0.0.1:0")
 	if err != nil {
@@ -1808,6 +1934,9 @@ func TestVerifC02BytePipe(t *testing.T) {
 	run.Floor("limited_chunk_gt_burst", 2)
 	run.Floor("early_close_fired", 5)
 	run.Floor("transport_fault_fired", 3)
+	run.Floor("layered_tcp_stream_cases", int64(run.Pick(15, 150)))
+	run.Floor("layered_tcp_stream_one_end_only", int64(run.Pick(8, 80)))
+	run.Floor("layered_tcp_stream_complete", int64(run.Pick(5, 50)))
 	for _, cls := range c02ErrClasses {
 		run.Floor("err_read_class_"+cls, 2)
 	}
